@@ -164,6 +164,7 @@ func runC07(c *Ctx) {
 	ruleWorkerPerRequest(c, p, "C07.E")
 	c.Rule("C07.I", "offsets are applied to the value they were found in; possibly-nil pointers are tested before use; externally supplied indices are bounded below; a response returned with an error is not dereferenced", 6)
 	ruleExternalIndexInBounds(c, p, "C07.I", "agent/websockets", "agent/utils", "agent/sessions", "agent/banner", "agent/metrics", "agent")
+	ruleSizesFromOutsideAreSane(c, p, "C07.I", "agent/websockets", "agent/utils", "agent/sessions", "agent/banner", "agent/metrics", "agent")
 	ruleResponseDerefOnErrorPath(c, p, "C07.I", "agent/websockets", "agent/utils", "agent", "agent/sessions", "agent/banner")
 	ruleIndexSliceAgreement(c, p, "C07.I", "agent/websockets", "agent/banner", "agent/utils", "agent/sessions")
 	ruleMayNilDeref(c, p, "C07.I", "agent/websockets.(*Connection).SendClientMessage", "agent/websockets.(*Connection).ReadServerMessages", "agent/websockets.NewConnection")
